@@ -282,16 +282,20 @@ func c06Jobs(thorough bool) []c06Job {
 	L7 := c06Scn{"L7", [][]string{{"M:a1", "M:a2"}, {"Sc"}}, []string{"S"}}
 	L8 := c06Scn{"L8", [][]string{{"M:a1", "M:a2", "M:a3", "F"}}, []string{"S"}} // sequential: chunked flush with faults
 	L9 := c06Scn{"L9", [][]string{{"M:a1", "M:a2", "M:a3", "M:a4"}, {"F"}}, []string{"S"}}
+	// a ForceFlush cut short by its context while an earlier batch is still in flight, then more
+	// records and a second ForceFlush: buffers handed to the export goroutine must not be reused
+	L10 := c06Scn{"L10", [][]string{{"M:a1", "M:a2", "M:a3", "Fc", "M:a4", "F"}}, []string{"S"}}
 	q2b1, q2b2, q1b1 := c06Cfg{2, 1, 1, false}, c06Cfg{2, 2, 1, false}, c06Cfg{1, 1, 1, false}
 	q3b2, q4b2 := c06Cfg{3, 2, 1, false}, c06Cfg{4, 2, 2, false}
 	q3b2f, q2b1f := c06Cfg{3, 2, 1, true}, c06Cfg{2, 1, 1, true}
+	q4b2buf1 := c06Cfg{4, 2, 1, false}
 	if !thorough {
 		return []c06Job{
 			{L1, q2b2, 1, 1}, {L1, q1b1, 1, 0}, {L1, q2b1, 1, 0},
 			{L3, q2b1, 1, 1}, {L3, q2b2, 1, 1}, {L3, q1b1, 1, 1}, {L3, q3b2f, 1, 1},
 			{L2, q2b2, 1, 0}, {L2, q1b1, 0, 1},
 			{L8, q3b2f, 0, 2}, {L8, q2b1f, 0, 2}, {L5, q2b2, 1, 1},
-			{L1, q3b2f, 0, 1}, {L4, q2b2, 1, 0},
+			{L1, q3b2f, 0, 1}, {L4, q2b2, 1, 0}, {L10, q4b2buf1, 1, 0},
 		}
 	}
 	var js []c06Job
@@ -308,7 +312,7 @@ func c06Jobs(thorough bool) []c06Job {
 			js = append(js, c06Job{sc, c, 1, 1})
 		}
 	}
-	js = append(js, c06Job{L8, q3b2f, 1, 2}, c06Job{L8, q2b1f, 1, 2})
+	js = append(js, c06Job{L8, q3b2f, 1, 2}, c06Job{L8, q2b1f, 1, 2}, c06Job{L10, q4b2buf1, 2, 1}, c06Job{L10, q2b1, 2, 0}, c06Job{L10, q3b2, 1, 1})
 	return js
 }
 
